@@ -10,8 +10,15 @@ NEAR = [b"GET / HTTP/1.1\r\nHost x\r\n\r\n", b"GET / HTTP/1.1\r\nHost:x\r\n\r\n"
         b"BAD / HTTP/1.1\r\n\r\n", b"GET / HTTP/2.0\r\n\r\n", b"GET /\r\n\r\n", b"\r\n", b" \r\n", b"GET / HTTP/1.0\r\n\r\n", b"GET / HTTP/1.1\r\nConnection: close\r\n\r\n",
         b"POST / HTTP/1.1\r\nContent-Length: 2\r\n\r\n\xff\xfe", b"POST / HTTP/1.1\r\nContent-Length: -1\r\n\r\n", b"POST / HTTP/1.1\r\nContent-Length: x\r\n\r\n",
         b"GET / HTTP/1.1\r\n" + b"A: 1\r\n" * 0 + b"".join(b"H%d: v\r\n" % i for i in range(101)) + b"\r\n", b"GET /" + b"a" * 66000 + b" HTTP/1.1\r\n\r\n",
+        b"GET / HTTP/1.1\r\nA: " + b"v" * 66000 + b"\r\n\r\n", b"GET / HTTP/1.1\nA: " + b"v" * 66000 + b"\n\n",
+        b"POST / HTTP/1.1\r\nTransfer-Encoding: chunked\r\n\r\n1;" + b"e" * 66000 + b"\r\na\r\n0\r\n\r\n",
+        b"POST / HTTP/1.1\r\nTransfer-Encoding: chunked\r\n\r\n1\r\na" + b"x" * 66000 + b"\r\n0\r\n\r\n",
+        b"POST / HTTP/1.1\r\nTransfer-Encoding: chunked\r\n\r\n0\r\nT: " + b"v" * 66000 + b"\r\n\r\n",
         b"GET / HTTP/1.1\r\n: v\r\n\r\n", b"GET / HTTP/1.1\r\nContent-Type: application/json; charset=\r\nContent-Length: 1\r\n\r\n{"]
-RESP_NEAR = [b"HTTP/1.1 302 Found\r\nContent-Length: 0\r\n\r\n", b"HTTP/1.1 302 Found\r\nLocation: http://h:999999/\r\nContent-Length: 0\r\n\r\n",
+RESP_NEAR = [b"HTTP/1.1 200 OK\r\nA: " + b"v" * 66000 + b"\r\n\r\n", b"HTTP/1.1 200 " + b"r" * 66000 + b"\r\n\r\n",
+             b"HTTP/1.1 200 OK\r\nContent-Type: text/event-stream\r\n\r\ndata: " + b"d" * 66000 + b"\n\n",
+             b"HTTP/1.1 200 OK\r\nContent-Type: text/event-stream\r\nTransfer-Encoding: chunked\r\n\r\n10400\r\ndata: " + b"d" * 66554 + b"\n\n\r\n0\r\n\r\n",
+             b"HTTP/1.1 302 Found\r\nContent-Length: 0\r\n\r\n", b"HTTP/1.1 302 Found\r\nLocation: http://h:999999/\r\nContent-Length: 0\r\n\r\n",
              b"HTTP/1.1 301 M\r\nLocation: http://[::1/x\r\nContent-Length: 0\r\n\r\n", b"HTTP/1.1 303 S\r\nLocation: /relative\r\nContent-Length: 0\r\n\r\n",
              b"HTTP/1.1 307 T\r\nLocation: http://h:ab/\r\nContent-Length: 0\r\n\r\n", b"HTTP/1.1 302 Found\r\nLocation: http://127.0.0.1:8080/n\r\nContent-Length: 0\r\n\r\n",
              b"HTTP/1.1 100 Continue\r\n\r\nHTTP/1.1 200 OK\r\nContent-Length: 2\r\n\r\nhi", b"HTTP/1.1 200 OK\r\nContent-Type: text/event-stream\r\n\r\ndata: \xff\n\n",
@@ -30,14 +37,16 @@ class C16(core.Check):
                  "differential fuzz of the real WSGI Server / BareServer / Client service loops on scripted sockets (outcome class compared); independent oracle: nothing escapes, "
                  "siblings are served as if alone")
     level_text = ("Proved for all byte strings and partitions: server_total / client_total (no reachable `escaped` phase: every exception a parsing step raises is caught by the "
-                  "message parser's handler), step_exceptions_are_http, malformed_is_local (the outcome of a connection in a service cycle over many connections is its outcome "
-                  "alone), every_site_caught (decide over the regenerated raise-site table: each explicit raise / implicit raiser found on the parse path is caught inside its function, "
-                  "by Parsent.parseMessage, or is in the short audited list of guarded sites).  The raise-site scan is heuristic; the correspondence fuzz (outcome class per connection: "
-                  "responses sent, connection kept or closed, escaped class) backs it.  Service loops themselves (socket handling, WSGI responder) are covered by the fuzz + oracle only.")
+                  "message parser's handler; client incl. the far side closing), step_exceptions_are_http, raise_reports_error / raise_reports_error_req (a malformed message ends as an "
+                  "`err` outcome), malformed_is_local (a service cycle over any number of connections is never aborted and every connection ends where it would alone), "
+                  "every_site_caught / every_redirect_site_caught (decide over the regenerated raise-site tables: each explicit raise / implicit raiser found on the parse path or in "
+                  "Client.redirect is caught inside its function, by Parsent.parseMessage or by the handler around the redirect call, or is one of two audited guarded kinds), "
+                  "raise_table_nontrivial.  The raise-site scan is heuristic; the correspondence fuzz (escaped class; for whole complete deliveries also answers sent and connection "
+                  "kept/closed) backs it.  Socket handling, WSGI responder and BareServer steward logic are covered by the fuzz + oracle only.")
     level_note = ("Trusted: Lean kernel; translator (AST raise-site scan is a heuristic, stated); scripted sockets stand for the kernel; urllib verdicts are parameters; "
                   "name resolution in Client.redirect is scripted.")
     quick_n = 500
-    thorough_n = 8000
+    thorough_n = 20000
     rule = ("cases: (srv) 1-3 connections to the WSGI Server or the BareServer, each a pipeline of grammar-generated requests, a near-valid table entry (colon without space, "
             "signed / 0x / non-hex chunk size, chunk extension, bad port / IPv6, bad method / version, 101 headers, 66 kB line, non UTF-8 body) or mutated / raw random bytes, "
             "fragmented per service cycle, some closing; (cli) the Client on a response table (redirects without / with bad / relative / insecure Location, 100-continue, bad UTF-8 "
@@ -57,6 +66,9 @@ class C16(core.Check):
         for kind in ("wsgi", "bare"):
             for d in NEAR:
                 cs.append(("srv", kind, ((d, (), False), (good, (), False))))
+            for d in NEAR:
+                if len(d) > 60000:      # the same delivered in two reads: the not-found branch of the line search
+                    cs.append(("srv", kind, ((d, (len(d) - 3,), False),)))
             cs.append(("srv", kind, ((good + good, (10,), True), (b"GET / HTTP/1.0\r\n\r\n", (), False), (NEAR[0], (3,), True))))
         for d in RESP_NEAR:
             cs.append(("cli", d, (), True, "http"))
